@@ -4,346 +4,14 @@
 //!   simconc run --prop C16 --seed S --from A --to B [--stride N] [--journal F] [--out F] [--trace] [--tier T]
 //!   simconc replay FILE
 mod ifaces;
-use ifaces::*;
-use savefile_abi::{AbiConnection, AbiExportable};
-use savefile_abi_min_lib::{AdderCallback, AdderInterface};
+mod scen;
+use scen::*;
 use serde_json::{json, Value};
 use shuttle::scheduler::{DfsScheduler, PctScheduler, RandomScheduler};
-use shuttle::sync::Mutex as SMutex;
 use shuttle::{Config, FailurePersistence, MaxSteps, Runner};
 use simcore::{arg, flag, mix, Journal, Rng, Stats};
-use stateright::semantics::{ConsistencyTester, LinearizabilityTester, SequentialSpec};
 use std::sync::atomic::{AtomicU64, Ordering};
 use std::sync::Arc;
-
-// ---------------------------------------------------------------------------------------------
-// workload (generated outside shuttle, explicit data)
-// ---------------------------------------------------------------------------------------------
-#[derive(Clone, Debug, PartialEq)]
-pub struct Workload {
-    pub threads: Vec<Vec<Vec<i64>>>, // thread -> ops -> [code, a, b]
-}
-pub const OPS: [&str; 15] = [
-    "create_a_same", "create_a_old_caller", "create_a_new_caller", "create_b", "call", "call_cb", "call_mk", "call_take", "shared_inc", "shared_write", "shared_read", "shared_append", "lib",
-    "create_incompatible", "lib_missing",
-];
-fn opcode(n: &str) -> i64 {
-    OPS.iter().position(|x| *x == n).unwrap_or(4) as i64
-}
-impl Workload {
-    fn to_json(&self) -> Value {
-        json!(self
-            .threads
-            .iter()
-            .map(|t| t.iter().map(|o| json!([OPS[(o[0] as usize) % OPS.len()], o[1], o[2]])).collect::<Vec<_>>())
-            .collect::<Vec<_>>())
-    }
-    fn from_json(v: &Value) -> Workload {
-        let threads = v
-            .as_array()
-            .map(|ts| {
-                ts.iter()
-                    .map(|t| {
-                        t.as_array()
-                            .map(|ops| {
-                                ops.iter()
-                                    .filter_map(|o| {
-                                        let a = o.as_array()?;
-                                        Some(vec![opcode(a.first()?.as_str()?), a.get(1).and_then(|x| x.as_i64()).unwrap_or(0), a.get(2).and_then(|x| x.as_i64()).unwrap_or(0)])
-                                    })
-                                    .collect()
-                            })
-                            .unwrap_or_default()
-                    })
-                    .collect()
-            })
-            .unwrap_or_default();
-        Workload { threads }
-    }
-    fn hash(&self) -> u64 {
-        let mut h = simcore::Fnv::new();
-        h.str(&self.to_json().to_string());
-        h.0
-    }
-    fn uses_lib(&self) -> bool {
-        self.threads.iter().flatten().any(|o| OPS[(o[0] as usize) % OPS.len()] == "lib")
-    }
-}
-fn gen_workload(seed: u64, allow_lib: bool) -> Workload {
-    let mut rng = Rng::new(seed);
-    let nthreads = rng.range(2, 4) as usize;
-    // swarm: each workload enables its own families
-    let fam_skew = rng.chance(1, 2);
-    let fam_shared = rng.chance(2, 3);
-    let fam_nested = rng.chance(2, 3);
-    let fam_lib = allow_lib && rng.chance(1, 3);
-    let mut pool: Vec<&str> = vec!["create_a_same", "create_a_same", "create_b", "call", "call"];
-    if fam_skew {
-        pool.extend(["create_a_old_caller", "create_a_new_caller"]);
-    }
-    if fam_shared {
-        pool.extend(["shared_inc", "shared_write", "shared_read", "shared_append"]);
-    }
-    if fam_nested {
-        pool.extend(["call_cb", "call_mk", "call_take"]);
-    }
-    if fam_lib {
-        pool.extend(["lib", "lib"]);
-    }
-    // error paths: a negotiation that must fail, a library that does not exist
-    if rng.chance(1, 3) {
-        pool.extend(["create_incompatible", "create_incompatible"]);
-    }
-    if rng.chance(1, 4) {
-        pool.extend(["lib_missing", "lib_missing"]);
-    }
-    let mut threads = Vec::new();
-    for _t in 0..nthreads {
-        let n = rng.range(2, 5);
-        let mut ops = Vec::new();
-        for _ in 0..n {
-            let name = *rng.pick(&pool);
-            ops.push(vec![opcode(name), rng.below(4) as i64, rng.below(1000) as i64]);
-        }
-        threads.push(ops);
-    }
-    Workload { threads }
-}
-
-// ---------------------------------------------------------------------------------------------
-// sequential specification of the shared object
-// ---------------------------------------------------------------------------------------------
-#[derive(Clone, Debug, Default, PartialEq, Eq, Hash)]
-struct Model {
-    counter: u64,
-    reg: u64,
-    log_len: u64,
-}
-#[derive(Clone, Debug, PartialEq, Eq, Hash)]
-enum SOp {
-    Inc,
-    Write(u64),
-    Read,
-    Append,
-}
-impl SequentialSpec for Model {
-    type Op = SOp;
-    type Ret = u64;
-    fn invoke(&mut self, op: &SOp) -> u64 {
-        match op {
-            SOp::Inc => {
-                self.counter += 1;
-                self.counter
-            }
-            SOp::Write(v) => {
-                let o = self.reg;
-                self.reg = *v;
-                o
-            }
-            SOp::Read => self.reg,
-            SOp::Append => {
-                self.log_len += 1;
-                self.log_len
-            }
-        }
-    }
-}
-
-// ---------------------------------------------------------------------------------------------
-// the scenario (runs inside a shuttle execution)
-// ---------------------------------------------------------------------------------------------
-enum Conn {
-    A0(AbiConnection<dyn a_v0::IfA>),
-    A1(AbiConnection<dyn a_v1::IfA>),
-    B(AbiConnection<dyn IfB>),
-}
-struct Cb(Arc<AtomicU64>);
-impl AdderCallback for Cb {
-    fn set(&self, value: u32) {
-        self.0.store(value as u64, Ordering::SeqCst);
-    }
-    fn get(&self) -> u32 {
-        self.0.load(Ordering::SeqCst) as u32
-    }
-}
-static LIB_PATH: std::sync::OnceLock<String> = std::sync::OnceLock::new();
-/// counters that survive the execution (plain std atomics: not scheduling points)
-static REACH_TEMPLATE_CONTENDED: AtomicU64 = AtomicU64::new(0);
-static EXECUTIONS: AtomicU64 = AtomicU64::new(0);
-
-fn run_thread(tid: usize, ops: &[Vec<i64>], shared: &Arc<AbiConnection<dyn Shared>>, tester: &Arc<std::sync::Mutex<LinearizabilityTester<usize, Model>>>) -> Vec<String> {
-    let mut out = Vec::new();
-    let mut conns: Vec<Conn> = Vec::new();
-    for (i, op) in ops.iter().enumerate() {
-        let name = OPS[(op[0] as usize) % OPS.len()];
-        let (a, b) = (op[1], op[2]);
-        match name {
-            "create_a_same" => {
-                let c = AbiConnection::<dyn a_v0::IfA>::from_boxed_trait(Box::new(ImplA0)).expect("create A same");
-                conns.push(Conn::A0(c));
-                out.push("created A".into());
-            }
-            "create_a_old_caller" => {
-                // caller built against revision 0, implementation against revision 1
-                let c = unsafe { AbiConnection::<dyn a_v0::IfA>::from_boxed_trait_for_test(<dyn a_v1::IfA as AbiExportable>::ABI_ENTRY, Box::new(ImplA1) as Box<dyn a_v1::IfA>) }.expect("create A old caller");
-                conns.push(Conn::A0(c));
-                out.push("created A(old caller, newer impl)".into());
-            }
-            "create_a_new_caller" => {
-                let c = unsafe { AbiConnection::<dyn a_v1::IfA>::from_boxed_trait_for_test(<dyn a_v0::IfA as AbiExportable>::ABI_ENTRY, Box::new(ImplA0) as Box<dyn a_v0::IfA>) }.expect("create A new caller");
-                conns.push(Conn::A1(c));
-                out.push("created A(newer caller, old impl)".into());
-            }
-            "create_incompatible" => {
-                // caller and implementation disagree about the argument type of `f`: every attempt must fail with an
-                // error (and must not disturb anybody else)
-                let r = unsafe { AbiConnection::<dyn a_bad::IfA>::from_boxed_trait_for_test(<dyn a_v0::IfA as AbiExportable>::ABI_ENTRY, Box::new(ImplA0) as Box<dyn a_v0::IfA>) };
-                out.push(match r {
-                    Ok(_) => "incompatible: CONNECTED".to_string(),
-                    Err(e) => format!("incompatible: error {}", format!("{:?}", e).chars().take(40).collect::<String>()),
-                });
-            }
-            "lib_missing" => {
-                let r = AbiConnection::<dyn AdderInterface>::load_shared_library(&format!("/nonexistent/libmissing{}.so", a % 2));
-                out.push(match r {
-                    Ok(_) => "missing lib: LOADED".to_string(),
-                    Err(e) => format!("missing lib: error {}", format!("{:?}", e).chars().take(24).collect::<String>()),
-                });
-            }
-            "create_b" => {
-                let c = AbiConnection::<dyn IfB>::from_boxed_trait(Box::new(ImplB)).expect("create B");
-                conns.push(Conn::B(c));
-                out.push("created B".into());
-            }
-            "call" | "call_cb" | "call_mk" | "call_take" => {
-                if conns.is_empty() {
-                    out.push("noop".into());
-                    continue;
-                }
-                let idx = (a as usize) % conns.len();
-                let x = b as u32;
-                let r = match (&conns[idx], name) {
-                    (Conn::A0(c), "call") => {
-                        use a_v0::IfA;
-                        format!("{} {}", c.f(x), c.g(a_v0::Arg { a: x }))
-                    }
-                    (Conn::A1(c), "call") => {
-                        use a_v1::IfA;
-                        format!("{} {}", c.f(x), c.g(a_v1::Arg { a: x, b: 9 }))
-                    }
-                    (Conn::A0(c), "call_cb") => {
-                        use a_v0::IfA;
-                        format!("{}", c.cb(&|v| v.wrapping_add(3), x))
-                    }
-                    (Conn::A1(c), "call_cb") => {
-                        use a_v1::IfA;
-                        format!("{}", c.cb(&|v| v.wrapping_add(3), x))
-                    }
-                    (Conn::A0(c), "call_mk") => {
-                        use a_v0::IfA;
-                        let l = c.mk(x);
-                        format!("{}", l.ping(2))
-                    }
-                    (Conn::A1(c), "call_mk") => {
-                        use a_v1::IfA;
-                        let l = c.mk(x);
-                        format!("{}", l.ping(2))
-                    }
-                    (Conn::A0(c), _) => {
-                        use a_v0::IfA;
-                        format!("{}", c.take(Box::new(LeafImpl(x)), 5))
-                    }
-                    (Conn::A1(c), _) => {
-                        use a_v1::IfA;
-                        format!("{}", c.take(Box::new(LeafImpl(x)), 5))
-                    }
-                    (Conn::B(c), _) => {
-                        let v: Vec<u32> = (0..(x % 40)).collect();
-                        format!("{} {}", c.h("s".repeat((x % 90) as usize)), c.k(&v))
-                    }
-                };
-                out.push(r);
-            }
-            "shared_inc" | "shared_write" | "shared_read" | "shared_append" => {
-                let (sop, uniq) = match name {
-                    "shared_inc" => (SOp::Inc, 0),
-                    "shared_write" => {
-                        let v = (tid as u64 + 1) * 10_000 + i as u64;
-                        (SOp::Write(v), v)
-                    }
-                    "shared_read" => (SOp::Read, 0),
-                    _ => (SOp::Append, (tid as u64 + 1) * 10_000 + i as u64),
-                };
-                tester.lock().unwrap().on_invoke(tid, sop.clone()).ok();
-                let r = match sop {
-                    SOp::Inc => shared.inc(),
-                    SOp::Write(v) => shared.write(v),
-                    SOp::Read => shared.read(),
-                    SOp::Append => shared.append(uniq, "p".repeat((b % 120) as usize)),
-                };
-                tester.lock().unwrap().on_return(tid, r).ok();
-                out.push("shared".into()); // the value is judged by the linearizability tester, not by equality
-            }
-            "lib" => match LIB_PATH.get() {
-                Some(p) => {
-                    let c = AbiConnection::<dyn AdderInterface>::load_shared_library(p).expect("load_shared_library");
-                    let cell = Arc::new(AtomicU64::new(0));
-                    let r1 = c.add_simple(b as u32, 2);
-                    let r2 = c.sub(b as u32 + 10, 3, Box::new(Cb(cell.clone())));
-                    out.push(format!("lib {} {} cb={}", r1, r2, cell.load(Ordering::SeqCst)));
-                }
-                None => out.push("noop".into()),
-            },
-            _ => out.push("noop".into()),
-        }
-    }
-    out
-}
-
-struct Outcome {
-    per_thread: Vec<Vec<String>>,
-    post: Vec<String>,
-    linearizable: bool,
-    history_len: usize,
-}
-fn scenario(w: &Workload, sequential: bool) -> Outcome {
-    savefile_abi::__verif_reset_caches();
-    EXECUTIONS.fetch_add(1, Ordering::Relaxed);
-    let shared: Arc<AbiConnection<dyn Shared>> = Arc::new(AbiConnection::<dyn Shared>::from_boxed_trait(Box::new(SharedImpl { st: SMutex::new(SharedState::default()) })).expect("shared"));
-    let tester = Arc::new(std::sync::Mutex::new(LinearizabilityTester::new(Model::default())));
-    let mut per_thread = Vec::new();
-    if sequential {
-        for (tid, ops) in w.threads.iter().enumerate() {
-            per_thread.push(run_thread(tid, ops, &shared, &tester));
-        }
-    } else {
-        let mut hs = Vec::new();
-        for (tid, ops) in w.threads.iter().enumerate() {
-            let ops = ops.clone();
-            let shared = shared.clone();
-            let tester = tester.clone();
-            hs.push(shuttle::thread::spawn(move || run_thread(tid, &ops, &shared, &tester)));
-        }
-        for h in hs {
-            per_thread.push(h.join().expect("thread panicked"));
-        }
-    }
-    // post phase: what ended up in the template cache must be what a sequential negotiation produces
-    let mut post = Vec::new();
-    {
-        let c = AbiConnection::<dyn a_v0::IfA>::from_boxed_trait(Box::new(ImplA0)).expect("post A");
-        post.push(format!("A.same g#0 by_ref={} take#0 by_ref={}", c.get_arg_passable_by_ref("g", 0), c.get_arg_passable_by_ref("take", 1)));
-        let c = unsafe { AbiConnection::<dyn a_v0::IfA>::from_boxed_trait_for_test(<dyn a_v1::IfA as AbiExportable>::ABI_ENTRY, Box::new(ImplA1) as Box<dyn a_v1::IfA>) }.expect("post A skew");
-        {
-            use a_v0::IfA;
-            post.push(format!("A.old-caller g#0 by_ref={} g(7)={}", c.get_arg_passable_by_ref("g", 0), c.g(a_v0::Arg { a: 7 })));
-        }
-        let c = AbiConnection::<dyn IfB>::from_boxed_trait(Box::new(ImplB)).expect("post B");
-        post.push(format!("B k#0 by_ref={} h={}", c.get_arg_passable_by_ref("k", 0), c.h("abc".into())));
-    }
-    let t = tester.lock().unwrap();
-    Outcome { per_thread, post, linearizable: t.is_consistent(), history_len: t.len() }
-}
 
 // ---------------------------------------------------------------------------------------------
 // exploring one workload
@@ -606,6 +274,25 @@ fn main() {
                     println!("{}", json!({"verdict": "reference-failed", "error": e}));
                     std::process::exit(3);
                 }
+            }
+        }
+        "gen-workloads" => {
+            // workloads for the std-thread / Miri engine: no dlopen (Miri cannot), biased towards the shared connection
+            let seed: u64 = arg(&args, "--seed").and_then(|s| s.parse().ok()).unwrap_or(simcore::DEFAULT_SEED);
+            let n: u64 = arg(&args, "--n").and_then(|s| s.parse().ok()).unwrap_or(4);
+            // one fixed workload that hammers the shared connection with arguments that spill out of the inline buffer
+            println!("{}", json!([[["shared_append", 0, 100], ["shared_append", 0, 110], ["shared_inc", 0, 0], ["shared_append", 0, 90]], [["shared_append", 0, 95], ["shared_write", 0, 1], ["shared_append", 0, 99]], [["shared_read", 0, 0], ["shared_append", 0, 80], ["shared_append", 0, 100]]]));
+            let mut i = 0u64;
+            let mut printed = 1;
+            while printed < n {
+                let w = gen_workload(mix(seed, "simconc-miri", i), false);
+                i += 1;
+                let names: Vec<&str> = w.threads.iter().flatten().map(|o| OPS[(o[0] as usize) % OPS.len()]).collect();
+                if names.iter().any(|x| *x == "lib_missing") {
+                    continue;
+                }
+                println!("{}", w.to_json());
+                printed += 1;
             }
         }
         "facts" => println!("{}", json!({"ops": OPS, "cdylib": LIB_PATH.get()})),
